@@ -888,7 +888,15 @@ def generate(verbose=False):
     it = indent_tables(class_index)
     if write_if_changed(os.path.join(GEN, "IndentConfig.lean"), emit_indent_config(it)):
         changed.append("IndentConfig.lean")
+    # BEGIN wp2_bfull2 (per-rule parameters of the B-full indent / vertical-spacing families)
+    import gen_bfull2
+
+    b2, b2_changed = gen_bfull2.generate(class_index, GEN, write_if_changed, lean_str, lean_list, lean_bool)
+    if b2_changed:
+        changed.append("BFull2Rules.lean")
+    # END wp2_bfull2
     tables = {"indent": it, "rules": rrows, "classes": crow, "chars": {k: (v if k not in ("lowerPairs", "upperPairs") else v) for k, v in ct.items()}, "symbols": sym, "classify": cft}
+    tables["bfull2"] = b2  # wp2_bfull2
     with open(os.path.join(CACHE, "tables.json"), "w") as f:
         json.dump(tables, f)
     # >>> WP1 layer P: the classifier productions as a program table
